@@ -221,6 +221,21 @@ B10 = {
  "C16-12": ("C16", "a pooled connection replaced once (or belonging to a host added later) that then stops answering without FIN / RST", "heartbeats started for the connections a pool starts with only: replacements have no heartbeats and no idle timer"),
  "C17-8": ("C17", "backend answers the proxy's own heartbeat with UNPREPARED (id in the prepared cache) carrying warnings / tracing id / custom payload, then answers the PREPARE", "guards for the connection's own requests sit only in the fast path that reads the error code from the plain body: panic 'not implemented'"),
 }
+B11 = {
+ "C01-13": ("C01", "a client that does not read: its queue and socket buffers fill, the proxy closes it after the write timeout while a backend read loop is blocked queueing a response for it", "Conn.Write split into a non-blocking look at 'closed' and an unconditional send: the blocked writer is never released, every client with requests on that backend connection gets no response"),
+ "C01-14": ("C01", "UNPREPARED answers still buffered on a backend connection that is already marked closed, so that the proxy's re-PREPARE cannot be queued", "that send failure treated as 'OnClose will take care of it': neither the request nor the PREPARE is pending any more, the request vanishes"),
+ "C04-10": ("C04", "a client goroutine between the closing check and the registration of its request while the connection's read loop sets the flag and sweeps the pending table", "closing check moved out of the lock that covers the registration: the request sits on a dead connection, the client is never answered"),
+ "C04-12": ("C04", "UNPREPARED for a cached statement at a moment the proxy's own PREPARE cannot be sent (connection closing, no stream ids), a next host that has the statement", "missing return after passing the request on: the UNPREPARED frame is also delivered to the client, which prepares and sends again - applied twice"),
+ "C07-12": ("C07", "a client that did USE ks, a backend connection of its session lost and re-established, the backend refusing the USE of the re-connect, a request routed there inside the window", "re-connects queue their USE without waiting for the answer: the connection enters its pool slot before its keyspace is set"),
+ "C09-12": ("C09", "the proxy's own USE on the new session's connections failing with something that is not a CQL error (connect timeout), then a bare local / peers read", "client keyspace set before the session exists and restored only for CQL errors"),
+ "C13-14": ("C13", "two clients of the same version and keyspace and different compression whose first requests fall into the time the first one's session takes to connect", "single-flight session connect named without the compression: the waiter is handed the other algorithm's session"),
+ "C14-12": ("C14", "a schema change at the moment the re-established control connection registers: EVENT frame right behind the READY", "events passed on only once a 'registered' flag is set, which the handshake goroutine sets after the read loop has already met the EVENT"),
+ "C15-11": ("C15", "a reconnect whose last step fails (node reports another rpc_address) while a host is unknown to the proxy, then a connect that succeeds", "add notifications sent before the check that can still fail: the next merge sends them again, the load balancer appends the host twice (and keeps the foreign address)"),
+ "C15-14": ("C15", "a listener registered (new session) a few hundred microseconds before a refresh or reconnect merge", "bootstrap notification delivered from a goroutine of its own: add / remove notifications overtake it and its stale host list then overwrites them"),
+ "C17-13": ("C17", "the peer killing a connection at the instant its owner closes it (refused handshake cleaned up by the pool)", "already-closed check of Conn.Close moved out of the critical section: close of closed channel, 24 times in 400 000 natural attempts"),
+ "C18-16": ("C18", "a topology event and its refresh, then a new session, a second refresh or a control reconnect", "host refresh runs in a goroutine of its own while the event loop keeps using hosts / listeners / currentHostIndex"),
+}
+B10.update(B11)
 B9.update(B10)
 B8.update(B9)
 B7.update(B8)
@@ -254,7 +269,7 @@ for sid in sorted(os.listdir(os.path.join(V, "seeded"))):
         demos = sorted(f for f in os.listdir(d) if f not in ("patch.diff", "meta.json", "notes.md"))
         meta = {
             "id": sid, "breaks_property": prop,
-            "origin": "fresh sub-agent given only the property text and a scratch worktree of /repo (commit %s)" % ("dd3f42b (round 10)" if sid in B10 else "dd3f42b (round 9)" if sid in B9 else "dd3f42b (round 8)" if sid in B8 else "19163b6 (round 7)" if sid in B7 else "19163b6 (round 6)" if sid in B6 else "19163b6" if sid in B5 else "78cb41b" if sid in B4 else "98f4792" if sid in B3 else "2fe6b89"),
+            "origin": "fresh sub-agent given only the property text and a scratch worktree of /repo (commit %s)" % ("dd3f42b (round 11)" if sid in B11 else "dd3f42b (round 10)" if sid in B10 else "dd3f42b (round 9)" if sid in B9 else "dd3f42b (round 8)" if sid in B8 else "19163b6 (round 7)" if sid in B7 else "19163b6 (round 6)" if sid in B6 else "19163b6" if sid in B5 else "78cb41b" if sid in B4 else "98f4792" if sid in B3 else "2fe6b89"),
             "needs_to_manifest": needs, "effect": effect, "demonstration": demos,
             "confirmed": "bin/seedconfirm in the scratch worktree: patch applies, go build ok, existing suite passes with it (in a private network namespace), demonstration FAILS with the patch and PASSES without it",
             "checks_run": "bin/seedtest seeded/%s/patch.diff quick %s ; bin/seedmatrix quick" % (sid, prop),
